@@ -469,6 +469,59 @@ Proof.
   intros x Hx. apply filter_In in Hx as [Hx _]. apply Fa. exact Hx.
 Qed.
 
+(* ---------- the steps of the row pipeline, in any order that works ---------- *)
+(* abstract run: f = a filter was applied, s = sorted, st = strictly sorted *)
+Fixpoint steps_ok (steps : list row_step) (f s st : bool) : bool :=
+  match steps with
+  | [] => f && st
+  | RFilter :: t => steps_ok t true s st
+  | RSort :: t => steps_ok t f true false
+  | RDedup :: t => steps_ok t f s s
+  end.
+
+(* the pipeline as written in the source now is one for which the theorems hold *)
+Lemma pipeline_ok : steps_ok dual_row_steps false false false = true.
+Proof. reflexivity. Qed.
+
+Lemma filter_sorted_le (P : nat -> bool) l : StronglySorted le l -> StronglySorted le (filter P l).
+Proof.
+  induction l as [|a t IH]; intros Hs; [constructor|].
+  apply StronglySorted_inv in Hs as [St Fa]. cbn [filter].
+  destruct (P a); [|apply IH; exact St].
+  constructor; [apply IH; exact St|]. rewrite Forall_forall in *.
+  intros x Hx. apply filter_In in Hx as [Hx _]. apply Fa. exact Hx.
+Qed.
+
+Lemma sorted_lt_le l : StronglySorted lt l -> StronglySorted le l.
+Proof.
+  induction 1 as [|a t Ht IH Fa]; constructor; [exact IH|].
+  rewrite Forall_forall in *. intros x Hx. specialize (Fa x Hx). lia.
+Qed.
+
+Lemma run_steps_spec (pred : nat -> res bool) (g : nat -> bool) (l0 : list nat) :
+  (forall x, In x l0 -> pred x = Ok (g x)) ->
+  forall steps l f s st,
+    (forall x, In x l <-> In x l0 /\ (f = true -> g x = true)) ->
+    (s = true -> StronglySorted le l) -> (st = true -> StronglySorted lt l) ->
+    steps_ok steps f s st = true ->
+    exists l', run_steps pred steps l = Ok l' /\ StronglySorted lt l'
+               /\ forall x, In x l' <-> In x l0 /\ g x = true.
+Proof.
+  intros Hpred. induction steps as [|[| |] t IH]; intros l f s st Hm Hs Hst Hok; cbn [steps_ok] in Hok.
+  - apply andb_true_iff in Hok as [-> ->]. exists l. split; [reflexivity|]. split; [auto|].
+    intros x. rewrite Hm. intuition.
+  - cbn [run_steps run_step]. rewrite (filterM_pure pred g).
+    2:{ intros x Hx. apply Hpred. apply Hm in Hx. tauto. }
+    cbn [bind]. apply (IH (filter g l) true s st); [|intros H; apply filter_sorted_le; auto|intros H; apply filter_sorted; auto|exact Hok].
+    intros x. rewrite filter_In, Hm. intuition.
+  - cbn [run_steps run_step bind]. apply (IH (sort_nat l) f true false); [|intros _; apply sort_nat_sorted|discriminate|exact Hok].
+    intros x. rewrite sort_nat_In. apply Hm.
+  - cbn [run_steps run_step bind]. apply (IH (dedup l) f s s); [| | |exact Hok].
+    + intros x. rewrite dedup_In. apply Hm.
+    + intros H. apply sorted_lt_le, dedup_sorted. auto.
+    + intros H. apply dedup_sorted. auto.
+Qed.
+
 (* ---------- one row ---------- *)
 Lemma count_common_pos a b : 1 <= count_common a b -> exists v, In v a /\ In v b.
 Proof.
@@ -532,16 +585,25 @@ Section Rows.
       - intros (v & Hv & Hlt & Hin). exists (nth v n2e []). split.
         + apply in_map_iff. exists v. auto.
         + apply Hn2e; auto. }
-    rewrite (filterM_pure _ (adjacent dim els e1)).
-    2:{ intros e2 He2. apply Hc in He2 as (v & _ & Hlt & _). unfold adjacent.
-        destruct (Nat.eqb_spec e1 e2) as [E|E]; [reflexivity|].
-        rewrite (cover_e2n _ _ _ Hcover) by lia. rewrite Nat.sub_0_r. cbn [bind negb andb].
-        rewrite threshold_le. reflexivity. }
-    cbn [bind]. f_equal. unfold spec_row.
+    destruct (run_steps_spec
+                (fun e2 => if e1 =? e2 then Ok false
+                           else bind (element_to_nodes cs e2)
+                                     (fun e2_nodes => Ok (threshold dim (count_common nodes e2_nodes))))
+                (adjacent dim els e1) cands) with (steps := dual_row_steps) (l := cands)
+                (f := false) (s := false) (st := false) as (l' & El & Sl & Ml).
+    { intros e2 He2. apply Hc in He2 as (v & _ & Hlt & _). unfold adjacent.
+      destruct (Nat.eqb_spec e1 e2) as [E|E]; [reflexivity|].
+      rewrite (cover_e2n _ _ _ Hcover) by lia. rewrite Nat.sub_0_r. cbn [bind negb andb].
+      rewrite threshold_le. reflexivity. }
+    { intros x. split; [intros H; split; [exact H|discriminate]|tauto]. }
+    { discriminate. }
+    { discriminate. }
+    { exact pipeline_ok. }
+    rewrite El. f_equal. unfold spec_row.
     apply sorted_lt_unique.
-    - apply dedup_sorted, sort_nat_sorted.
+    - exact Sl.
     - apply filter_sorted, seq_sorted.
-    - intros x. rewrite dedup_In, sort_nat_In, !filter_In, in_seq. split.
+    - intros x. rewrite Ml, !filter_In, in_seq. split.
       + intros [Hx Ha]. apply Hc in Hx as (v & _ & Hlt & _). split; [lia|exact Ha].
       + intros [Hx Ha]. split; [|exact Ha]. apply Hc.
         unfold adjacent in Ha. apply andb_true_iff in Ha as [_ Ha]. apply Nat.leb_le in Ha.
@@ -1270,3 +1332,60 @@ Section Statements.
     repeat split; auto. apply spec_elements_length.
   Qed.
 End Statements.
+
+(* ---------- inside the contract the checker's verdict IS the correspondence ---------- *)
+Lemma split_rows_inv ptrs : forall prev idx rows,
+  split_rows prev ptrs idx = Some rows ->
+  ptrs = prefix_sums prev (map (@length nat) rows) /\ idx = concat rows.
+Proof.
+  induction ptrs as [|p t IH]; intros prev idx rows E; cbn [split_rows] in E.
+  - destruct idx; [|discriminate]. injection E as <-. split; reflexivity.
+  - destruct (Nat.ltb_spec p prev) as [|Hge]; [discriminate|].
+    destruct (Nat.ltb_spec (length idx) (p - prev)) as [|Hle]; [discriminate|].
+    destruct (split_rows p t (skipn (p - prev) idx)) as [r|] eqn:Er; [|discriminate].
+    injection E as <-. destruct (IH _ _ _ Er) as [Ht Hi].
+    cbn [map prefix_sums concat]. rewrite firstn_length_le by exact Hle.
+    replace (prev + (p - prev)) with p by lia. split; [f_equal; exact Ht|].
+    rewrite <- Hi. symmetry. apply firstn_skipn.
+Qed.
+
+Lemma csr_rows_inv indptr idx rows : csr_rows indptr idx = Some rows ->
+  indptr = 0 :: prefix_sums 0 (map (@length nat) rows) /\ idx = concat rows.
+Proof.
+  unfold csr_rows. destruct indptr as [|[|z] t]; try discriminate.
+  intros E. destruct (split_rows_inv _ _ _ _ E) as [-> ->]. split; reflexivity.
+Qed.
+
+Lemma ones_repeat d : Forall (eq ONE_BITS) d -> d = repeat ONE_BITS (length d).
+Proof. induction 1 as [|x t <- _ IH]; cbn [length repeat]; [reflexivity|f_equal; exact IH]. Qed.
+
+Lemma holds_rows dim els g nb nu rows : C18_holds dim els g nb nu ->
+  csr_rows (g_indptr g) (g_indices g) = Some rows -> rows = spec_rows dim els.
+Proof.
+  intros (_ & _ & _ & (rows' & Er & Lr & _ & Hs & Hin) & _) E. rewrite E in Er. injection Er as <-.
+  apply (nth_ext _ _ [] []); [rewrite spec_rows_length; exact Lr|].
+  intros i Hi. rewrite Lr in Hi. rewrite spec_rows_nth by exact Hi.
+  apply sorted_lt_unique; [apply Hs; exact Hi|apply filter_sorted, seq_sorted|].
+  intros x. rewrite (Hin i x Hi), spec_row_In. reflexivity.
+Qed.
+
+(* the property determines the matrix: it is the specification matrix *)
+Theorem holds_is_spec dim els g nb nu : C18_holds dim els g nb nu ->
+  g = spec_csr dim els /\ nb = length els /\ nu = length els.
+Proof.
+  intros Hh. pose proof Hh as (H1 & H2 & H3 & (rows & Er & _) & H5 & H6 & H7 & H8).
+  pose proof (holds_rows _ _ _ _ _ _ Hh Er) as ->.
+  destruct (csr_rows_inv _ _ _ Er) as [Hp Hi].
+  split; [|auto]. destruct g as [gr gc gp gi gd]. cbn [g_rows g_cols g_indptr g_indices g_data] in *.
+  unfold spec_csr. subst gr gc gp gi. f_equal.
+  rewrite (ones_repeat gd H6), H5. reflexivity.
+Qed.
+
+Theorem checker_implies_model m g nb nu : wf_mesh m = true -> check_C18 m g nb nu = true ->
+  dual m = Ok g /\ barycentre_count m = Ok nb /\ used_element_count m = Ok nu.
+Proof.
+  intros Hwf Hck. apply check_C18_ok in Hck as (dim & E & Hh).
+  pose proof (wf_contract m dim Hwf E) as Hc.
+  destruct (holds_is_spec _ _ _ _ _ Hh) as (-> & -> & ->).
+  split; [apply dual_eq; exact Hc|]. split; [apply barycentre_count_eq|apply used_element_count_eq]; exact Hc.
+Qed.
